@@ -265,6 +265,10 @@ func (tnc *TNC) runControlLoop() error {
 				}
 			case cmdBusy:
 				tnc.busy = msg.value.(bool)
+			case cmdConnected:
+				// Data frames may follow the CONNECTED report directly. Mark the link as connected
+				// before the next frame is taken, so they are queued instead of being discarded.
+				tnc.connected = true
 			}
 
 			if debugEnabled() {
@@ -322,10 +326,10 @@ func (tnc *TNC) runControlLoop() error {
 }
 
 func (tnc *TNC) eof() {
+	tnc.connected = false // Set to true when the TNC reports CONNECTED
 	if tnc.data != nil {
 		close(tnc.dataIn)       // Signals EOF to pending reads
 		tnc.data.signalClosed() // Signals EOF to pending writes
-		tnc.connected = false   // connect() is responsible for setting it to true
 		tnc.dataIn = make(chan []byte, 4096)
 		tnc.data = nil
 	}
